@@ -121,6 +121,10 @@ pub struct VmSim {
     pub keep_calls: bool,
     pub regions: Vec<Reservation>,
     pub bad_calls: Vec<String>,
+    /// behave like the wasm host: decommit (mprotect(PROT_NONE) + madvise) does nothing, so
+    /// freed pages keep their old bytes
+    pub decommit_noop: bool,
+    pub skipped_decommits: u64,
 }
 
 pub const PAGE: usize = 4096;
@@ -240,6 +244,21 @@ pub unsafe fn mmap(
 
 pub unsafe fn mprotect(addr: *mut c_void, len: size_t, prot: c_int) -> c_int {
     let commit = prot & PROT_WRITE != 0;
+    if !commit {
+        let skip = VM.with(|v| {
+            let mut g = v.borrow_mut();
+            match g.as_mut() {
+                Some(vm) if vm.decommit_noop => {
+                    vm.skipped_decommits += 1;
+                    true
+                }
+                _ => false,
+            }
+        });
+        if skip {
+            return 0;
+        }
+    }
     let fail = VM.with(|v| {
         let mut g = v.borrow_mut();
         let Some(vm) = g.as_mut() else { return false };
@@ -284,6 +303,9 @@ pub unsafe fn mprotect(addr: *mut c_void, len: size_t, prot: c_int) -> c_int {
 }
 
 pub unsafe fn madvise(addr: *mut c_void, len: size_t, advice: c_int) -> c_int {
+    if VM.with(|v| v.borrow().as_ref().is_some_and(|vm| vm.decommit_noop)) {
+        return 0;
+    }
     VM.with(|v| {
         if let Some(vm) = v.borrow_mut().as_mut()
             && vm.keep_calls
